@@ -346,9 +346,30 @@ fn check_c07(tier: Tier, seed: u64) -> i32 {
     let nproc = 8;
     let batch = match tier { Tier::Quick => 400u64, Tier::Thorough => 20_000 };
     let exe = std::env::current_exe().unwrap();
+    // every child also gets a different process environment (locale, time zone, HOME, working
+    // directory, terminal size, RUST_* and RAYON_* variables): none of it may reach the output
+    let tmpdir = format!("{}/target/tmp", engine::verif_root());
+    let _ = std::fs::create_dir_all(&tmpdir);
     let children: Vec<_> = (0..nproc)
-        .map(|_| std::process::Command::new(&exe).args(["digest-batch", &seed.to_string(), &batch.to_string()]).stdout(std::process::Stdio::piped()).stderr(std::process::Stdio::null()).spawn())
+        .map(|k| {
+            let mut c = std::process::Command::new(&exe);
+            c.args(["digest-batch", &seed.to_string(), &batch.to_string()]).stdout(std::process::Stdio::piped()).stderr(std::process::Stdio::null());
+            match k % 4 {
+                1 => {
+                    c.env("LANG", "C").env("LC_ALL", "C").env("TZ", "Pacific/Kiritimati").env("COLUMNS", "20").env("RUST_BACKTRACE", "full").current_dir("/");
+                }
+                2 => {
+                    c.env("LANG", "tr_TR.UTF-8").env("LC_ALL", "tr_TR.UTF-8").env("TZ", "UTC").env("HOME", "/nonexistent").env("RAYON_NUM_THREADS", "1").env("RUST_LOG", "trace").current_dir(&tmpdir);
+                }
+                3 => {
+                    c.env_remove("HOME").env_remove("LANG").env_remove("PATH").env("TMPDIR", "/nonexistent").env("PICKLE_FUZZER_SEED", "99").env("SOURCE_DATE_EPOCH", "1");
+                }
+                _ => {}
+            }
+            c.spawn()
+        })
         .collect();
+    stats.add("fault.env.children_with_perturbed_environment", (nproc as u64) * 3 / 4);
     let mut outs: Vec<String> = vec![];
     for c in children {
         if let Ok(c) = c {
